@@ -82,6 +82,10 @@ fn with_dest(cap: u128, pre: &[u8], job: &impl Job) -> Args {
         (res, v)
     } else {
         let cap = usize::try_from(cap).expect("capacity");
+        // the same job on an unbounded destination BEFORE and AFTER the bounded (possibly failing) call: a call's output must not
+        // depend on what earlier calls on this thread did (no state may survive a failed write)
+        let mut before = Vec::new();
+        let rb = job.run(&mut before).ok();
         let mut store = vec![FILL; pre.len() + cap];
         store[..pre.len()].copy_from_slice(pre);
         let (res, remaining) = {
@@ -93,6 +97,9 @@ fn with_dest(cap: u128, pre: &[u8], job: &impl Job) -> Args {
         // nothing behind the write position may have been touched
         assert!(store[pre.len() + filled..].iter().all(|&b| b == FILL), "bytes behind the cursor changed");
         store.truncate(pre.len() + filled);
+        let mut after = Vec::new();
+        let ra = job.run(&mut after).ok();
+        assert!(rb == ra && before == after, "the output of a call depends on an earlier (failed) call: state leaked between calls");
         (res, store)
     };
     match res {
